@@ -132,11 +132,15 @@ def reference(item) -> dict:
     return out
 
 
-def ssbs_compile_result(text: str) -> dict:
+def ssbs_compile_result(text: str, compiler=None) -> dict:
     from vf.cut import compile_ssbs
 
     try:
-        c = compile_ssbs(text)
+        if compiler is not None:
+            compiler.compile(text)
+            c = compiler
+        else:
+            c = compile_ssbs(text)
     except Exception as e:  # noqa
         return describe_exc(e)
     return {
